@@ -103,6 +103,32 @@ func VerifUSKernel() {
 	vrt.Assert(d.Pos() == pos+int64(n), "integer reader advances by its width")
 }
 
+// VerifUSWidthDomain: widths outside the domain of the integer readers (below
+// 0 resp. 1, above 64) are refused with an error - never a Go runtime panic
+// (which would crash fq: C06) - and a zero width unsigned read is 0.
+func VerifUSWidthDomain() {
+	buf := vrt.Bytes("buf", 10)
+	n := vrt.IntRange("nBits", -2, 67)
+	endian := Endian(vrt.Choice("endian", 2))
+	signed := vrt.Choice("signed", 2) == 1
+	d := zzD(buf, endian, 3)
+	if n >= 1 && n <= 64 {
+		return // VerifUSKernel
+	}
+	if signed {
+		_, err := d.trySEndian(n, endian)
+		vrt.Assert(err != nil, "trySEndian: a width outside 1..64 is an error")
+	} else {
+		v, err := d.tryUEndian(n, endian)
+		if n == 0 {
+			vrt.Assert(err == nil && v == 0, "tryUEndian: zero width reads 0")
+		} else {
+			vrt.Assert(err != nil, "tryUEndian: a width outside 0..64 is an error")
+		}
+	}
+	vrt.Assert(d.Pos() == 3, "integer reader with an invalid width does not move")
+}
+
 func minInt(a, b int) int {
 	if a < b {
 		return a
